@@ -252,7 +252,13 @@ impl PartialEq for SassNumber {
             return false;
         }
 
-        self.num == other.num.convert(&other.unit, &self.unit)
+        match self.unit.canonical() {
+            Some(canonical) if self.unit != other.unit => {
+                self.num.convert(&self.unit, &canonical)
+                    == other.num.convert(&other.unit, &canonical)
+            }
+            _ => self.num == other.num.convert(&other.unit, &self.unit),
+        }
     }
 }
 
